@@ -19,7 +19,7 @@ BOUNDS = {
 ASSUMPTIONS = ['user functions are deterministic: the pristine value is what every build must return']
 WITNESSES = {'quick': ['mutated-returned-value', 'mutated-cached-value', 'mutated-listing'], 'thorough': ['mutated-returned-value']}
 
-EDGES = ['ret-sb', 'ret-bf', 'ret-sb-nested', 'ret-bf-nested', 'args-sb', 'args-bf', 'list_dir', 'walk']
+EDGES = ['ret-sb', 'ret-bf', 'ret-sb-nested', 'ret-bf-nested', 'args-sb', 'args-bf', 'kwargs-sb', 'kwargs-bf', 'list_dir', 'walk']
 MUTS = ['append', 'pop', 'clear', 'nested-append', 'nested-setitem']
 
 
@@ -66,16 +66,16 @@ def harness(eng, fam, P):
     def pristine():
         return [i, [j], {'k': [m]}]
 
-    def leaf_sb(b, *args):
+    def leaf_sb(b, *args, **kw):
         calls.append('leaf')
-        for a in args:
+        for a in list(args) + list(kw.values()):
             if isinstance(a, list):
                 do_mut(a, how, x)          # the callee edits its argument
         return pristine()
 
-    def leaf_bf(b, fn, *args):
+    def leaf_bf(b, fn, *args, **kw):
         calls.append('leaf')
-        for a in args:
+        for a in list(args) + list(kw.values()):
             if isinstance(a, list):
                 do_mut(a, how, x)
         w.user_write(w.fs, fn, 5)
@@ -83,10 +83,11 @@ def harness(eng, fam, P):
 
     seen = []
 
-    def call_leaf(b, kind, args=()):
+    def call_leaf(b, kind, args=(), kw=None):
+        kw = kw or {}
         if kind == 'sb':
-            return b.subbuild('leaf', leaf_sb, *args)
-        return b.build_file(w.p('o/f'), 'leaf', leaf_bf, *args)
+            return b.subbuild('leaf', leaf_sb, *args, **kw)
+        return b.build_file(w.p('o/f'), 'leaf', leaf_bf, *args, **kw)
 
     def parent(b):
         calls.append('parent')
@@ -127,6 +128,11 @@ def harness(eng, fam, P):
             r = call_leaf(b, 'sb' if fam == 'args-sb' else 'bf', (a,))
             seen.append(copy.deepcopy(a))          # the caller's object is untouched
             return 0
+        if fam in ('kwargs-sb', 'kwargs-bf'):
+            a = [i, [j]]
+            r = call_leaf(b, 'sb' if fam == 'kwargs-sb' else 'bf', (), {'opt': a})
+            seen.append(copy.deepcopy(a))
+            return 0
         r = b.subbuild('lister', lister)
         seen.append(copy.deepcopy(r))
         return 0
@@ -162,7 +168,7 @@ def harness(eng, fam, P):
                     eng.check('C11.reexecuted-without-change', 'lister' not in calls, sig + ('build%d' % (k + 1),),
                               info={'calls': list(calls), 'build': k + 1})
                 eng.witness('mutated-listing')
-            elif fam.startswith('args'):
+            elif fam.startswith('args') or fam.startswith('kwargs'):
                 eng.check('C11.caller-argument-mutated', L.eq(seen[-1], [i, [j]]), sig)
                 if k > 0:
                     eng.check('C11.reexecuted-without-change', not calls, sig + ('build%d' % (k + 1),),
